@@ -141,6 +141,8 @@ func (f *Field[T]) add(a, b *Element[T], nextOverflow uint) *Element[T] {
 	return f.newInternalElement(limbs, nextOverflow)
 }
 
+// Sum computes the sum of the inputs and returns it. If the result wouldn't fit
+// into Element, then first reduces the inputs. Doesn't mutate inputs.
 func (f *Field[T]) Sum(inputs ...*Element[T]) *Element[T] {
 	if len(inputs) == 0 {
 		return f.Zero()
@@ -160,6 +162,18 @@ func (f *Field[T]) Sum(inputs ...*Element[T]) *Element[T] {
 		}
 	}
 	addOverflow := bits.Len(uint(len(inputs)))
+	if overflow+uint(addOverflow) > f.maxOverflow() {
+		// the limbs of the sum could overflow the native field. As in the other
+		// arithmetic methods, first reduce the inputs and try again.
+		if overflow == 0 {
+			panic(fmt.Sprintf("sum of %d inputs overflows the native field", len(inputs)))
+		}
+		reduced := make([]*Element[T], len(inputs))
+		for i := range inputs {
+			reduced[i] = f.Reduce(inputs[i])
+		}
+		return f.Sum(reduced...)
+	}
 	limbs := make([]frontend.Variable, nbLimbs)
 	for i := range limbs {
 		limbs[i] = 0
